@@ -359,3 +359,32 @@ pub proof fn lemma_lz_bound(n: u32)
 }
 
 } // verus!
+verus! {
+/// NTT-friendly primes p = 1 (mod 2^32): p (p - 2) = -1 (mod 2^64), i.e. p - 2 is the Montgomery constant -1/p
+pub proof fn lemma_ntt_prime_ninv(p: u64)
+    requires p % 0x1_0000_0000 == 1, p >= 3
+    ensures (p as int * (p - 2) as int + 1) % two64() == 0
+{
+    // p = 1 + 2^32 k: p (p - 2) + 1 = (p - 1)^2 = 2^64 k^2
+    let k = (p as int - 1) / 0x1_0000_0000;
+    lemma_fundamental_div_mod(p as int - 1, 0x1_0000_0000);
+    assert((p as int - 1) % 0x1_0000_0000 == 0) by { lemma_fundamental_div_mod(p as int, 0x1_0000_0000); }
+    let m = p as int - 1;
+    assert(m == 0x1_0000_0000 * k);
+    lemma_distrib_l(p as int, p as int, -2);
+    assert(p as int * (p as int - 2) + 1 == m * m) by {
+        lemma_distrib_r(m, 1, m + 1); lemma_distrib_l(m, m, 1); lemma_mul_one(m); lemma_mul_one(m + 1);
+        lemma_distrib_l(m + 1, m, -1); lemma_mul_comm(m + 1, m);
+    }
+    lemma_mul_assoc(0x1_0000_0000, k, 0x1_0000_0000 * k);
+    lemma_mul_comm(k, 0x1_0000_0000 * k);
+    lemma_mul_assoc(0x1_0000_0000, k, k);
+    lemma_mul_assoc(0x1_0000_0000, 0x1_0000_0000, k * k);
+    assert(m * m == two64() * (k * k)) by {
+        assert(m * m == 0x1_0000_0000 * (k * (0x1_0000_0000 * k)));
+        assert(k * (0x1_0000_0000 * k) == 0x1_0000_0000 * (k * k));
+    }
+    lemma_mod_multiples_basic(k * k, two64());
+    lemma_mul_comm(two64(), k * k);
+}
+} // verus!
